@@ -68,6 +68,7 @@ def seq_programs(tier, seed):
         ps += list(gen.gen_seq_random(rng, 600))
         ps += list(gen.gen_seq_futs())
         ps += list(gen.gen_seq_hidden(caps=(2,), depth=3, flavs=("ss",)))
+        ps += list(gen.gen_seq_fill())
     else:
         ps = list(gen.gen_seq_exhaustive(2, [0, 1, 2, None], flavs=("ss", "aa", "sa", "as")))
         ps += list(gen.gen_seq_exhaustive(3, [0, 1]))
@@ -76,6 +77,7 @@ def seq_programs(tier, seed):
         ps += list(gen.gen_seq_random(rng, 20000, lengths=(4, 5, 6, 8, 10, 12)))
         ps += list(gen.gen_seq_futs(caps=(0, 1, 2, 3), ks=(3, 4, 5), flavs=("aa", "sa")))
         ps += list(gen.gen_seq_hidden(caps=(1, 2, 3), depth=3, flavs=("ss", "aa")))
+        ps += list(gen.gen_seq_fill(ns=(15, 16, 17, 31, 32, 33, 63, 64, 65, 127, 128, 129, 255, 256, 257), caps=(None, 300)))
     return ps
 
 
@@ -324,7 +326,8 @@ PLANS = {
                       R("lockbusy", (0, 0), (1, 1), None, True, programs_fn=lockbusy_sweep(("block", "try", "drain"), (10, 14), "lockbusy03", nthird=(2, 7)))]),
     "C05": dict(mc=MC("timed", "async", thorough=["t_async"], bounded=["t_timed"]) + MCA("2p"), spec_l1l0=True, runs=[R("general", (250, 4000), (3, 6), "C05", True), R("timed", (200, 3000), (3, 6), "C05", True),
                       R("async", (200, 3000), (3, 6), "C05", True), R("chain", (100, 2000), (2, 6), "C05", True),
-                      R("discrace", (0, 0), (1, 1), "C05", True, programs_fn=discrace_sweep(16, (40, 60), "discrace05"))]),
+                      R("discrace", (0, 0), (1, 1), "C05", True, programs_fn=discrace_sweep(16, (40, 60), "discrace05")),
+                      R("fdropfreeze", (0, 0), (1, 1), "C05", True, programs_fn=freeze_sweep("fdrop", (10, 150), (30, 45), "fdropfreeze05"))]),
     "C07": dict(mc=MC("sync", "async", thorough=["t_sync", "t_async"]) + SHB(),
                 runs=[R("hbfreeze", (0, 0), (1, 1), None, False, programs_fn=hbfreeze_programs, rawmon=[("HBMonitor", "HBMonitor.cfg")]),
                       R("fdropfreeze", (0, 0), (1, 1), None, False, programs_fn=freeze_sweep("fdrop", (12, 150), (30, 45), "fdropfreeze"),
@@ -342,7 +345,8 @@ PLANS = {
                 assume=["happens-before is computed from the orderings actually passed to the atomics on sequentially consistent interleavings; stale relaxed reads of weaker-than-SC executions are not enumerated"]),
     "C08": dict(mc=MC("sync", thorough=["t_sync"]), spec_l1l0=True, runs=[R("capacity", (300, 5000), (3, 6), "C08", True), R("general", (150, 2000), (3, 5), "C08", True),
                                                            R("chain_z", (200, 3000), (2, 4), "C08", True), R("chain_s", (100, 2000), (2, 4), "C08", True),
-                                                           R("casrace", (0, 0), (1, 1), "C08", True, own_all=True, programs_fn=casrace_sweep("casrace08"))]),
+                                                           R("casrace", (0, 0), (1, 1), "C08", True, own_all=True, programs_fn=casrace_sweep("casrace08")),
+                                                           R("seqfill", (0, 0), (1, 1), "C08", True, own_all=True, programs_fn=lambda tier, seed: list(gen.gen_seq_fill()))]),
     "C10": dict(mc=MC("sync", "timed", "closeclone", thorough=["t_sync"], bounded=["t_timed"]), spec_l1l0=True, spec_l2l1=True, runs=[R("close", (300, 5000), (3, 6), "C10", True), R("general", (150, 2000), (3, 5), "C10", True),
                       R("discrace", (0, 0), (1, 1), "C10", True, own_all=True, programs_fn=discrace_sweep(48, (40, 60), "discrace10")),
                       R("casrace", (0, 0), (1, 1), "C10", True, own_all=True, programs_fn=casrace_sweep("casrace10"))]),
@@ -498,7 +502,19 @@ def run_one_config(prop, run, tier, seed, wd, tag, stats, findings, programs=Non
         begun, done = vlib.load_meta(meta)
         execs = vlib.split_hist(hist)
         # drop a trailing partial execution (crash)
-        good = [(x, ls) for x, ls in execs if ls and ls[-1].startswith('{"e":"Z"')]
+        def intact(ls):
+            # a crashing harness process can leave damaged lines behind (memory corruption reaches the output buffer)
+            if not ls or not ls[-1].startswith('{"e":"Z"'):
+                return False
+            for l in ls:
+                if not l.endswith("}\n") or "\ufffd" in l:
+                    return False
+                try:
+                    json.loads(l)
+                except ValueError:
+                    return False
+            return True
+        good = [(x, ls) for x, ls in execs if intact(ls)]
         if len(good) != len(execs):
             with open(hist, "w") as f:
                 for _, ls in good:
@@ -623,8 +639,11 @@ def epilogue_findings(ls, prog):
     np_ = len(prog.get("procs", []))
     open_t, cur = {}, None
     for l in ls:
+        try:
+            e = json.loads(l) if l.startswith('{"e":"B"') or l.startswith('{"e":"E"') else None
+        except ValueError:
+            continue            # a line damaged by a crashing harness process
         if l.startswith('{"e":"B"'):
-            e = json.loads(l)
             if e["p"] < np_:
                 if e["op"] in ("send_timeout", "send_option_timeout", "recv_timeout") and e.get("d", 0) > 0:
                     open_t[e["p"]] = e
@@ -640,7 +659,6 @@ def epilogue_findings(ls, prog):
                                     what="a call of a single-threaded program blocked"))
                 break
         elif l.startswith('{"e":"E"'):
-            e = json.loads(l)
             if e["p"] in open_t and open_t[e["p"]]["o"] == e["o"]:
                 del open_t[e["p"]]
             if cur is not None and e["o"] == cur["o"]:
